@@ -10,7 +10,7 @@ open Lopdf Gen
 
 /-- the rest of `Reader::read` after the cross-reference data are known (the code of
 `loadDocWith` from the object pass on, verbatim) -/
-def objectPass (arr : List Block → List Block) (buf version mark : Bytes) (x : XTable) (tr : Dict) (xs : Nat) :
+def objectPass (arr : List Block → List Block) (arr2 : List ObjId → List ObjId) (buf version mark : Bytes) (x : XTable) (tr : Dict) (xs : Nat) :
     Outcome Loaded :=
   let size := x.maxId + 1
   let xs' := x.sorted
@@ -21,21 +21,11 @@ def objectPass (arr : List Block → List Block) (buf version mark : Bytes) (x :
   | .ok (os, fromStm) =>
     let arrived := arr fromStm
     let os1 := mergeBlocksX x os arrived
-    let fin := os1.map fun (p : ObjId × LObj) =>
+    let os2 := (arr2 (pendingIds os1)).foldl (completeOne buf) os1
+    let fin := os2.map fun (p : ObjId × LObj) =>
       match p.2 with
-      | .plain (.stream d c) =>
-        if c.isEmpty && !(Dict.getTypeIs d OBJSTM) then (p.1, Obj.stream d c) else (p.1, Obj.stream d c)
       | .plain o => (p.1, o)
-      | .pending d start =>
-        let len := ((d.get LENGTH).bind (derefL os1 DEREF_LIMIT)).bind Obj.asInt
-        (match len with
-         | some l =>
-           if l < 0 then (p.1, Obj.stream d [])
-           else if start + l.toNat > buf.length then (p.1, Obj.stream d [])
-           else
-             let c := (buf.drop start).take l.toNat
-             (p.1, Obj.stream (d.set LENGTH (.int c.length)) c)
-         | none => (p.1, Obj.stream d []))
+      | .pending d _ => (p.1, Obj.stream d [])
     let objects := fin.foldr (fun (p : ObjId × Obj) acc => insertSortedO p.1 p.2 acc) []
     .ok { version := version, binaryMark := mark, trailer := tr, objects := objects,
           maxId := size - 1, xrefStart := xs }
@@ -73,7 +63,7 @@ theorem mark_notEol : ∀ b : UInt8, b ≥ 128 → notEol b = true := by
 /-- **The front of `Reader::read`** on any file of the shape `%PDF-<version>\n%<mark>\n…` whose
 `startxref` is found: the reader enters the object pass with the table and trailer its `Prev`
 walk computes. -/
-theorem load_front_chain (arr : List Block → List Block) (out version mark R : Bytes)
+theorem load_front_chain (arr : List Block → List Block) (arr2 : List ObjId → List ObjId) (out version mark R : Bytes)
     (hout : out = PDF_KW ++ (version ++ 10 :: 37 :: (mark ++ 10 :: R)))
     (hv1 : ∀ b ∈ version, notEol b = true) (hv2 : validUtf8 version = true)
     (hmark : (mark.all fun b => b ≥ 128) = true)
@@ -82,7 +72,7 @@ theorem load_front_chain (arr : List Block → List Block) (out version mark R :
     (x : XTable) (tr : Dict)
     (hpl : prevLoop out (out.length + 2) (tr0.get PREV) [] x0 (tr0.remove PREV) = .ok (x, tr))
     (hmax : x.maxId + 1 < U32) (henc : tr.has ENCRYPT = false) :
-    loadDocWith arr out = objectPass arr out version mark x tr xs := by
+    loadDocWith arr arr2 out = objectPass arr arr2 out version mark x tr xs := by
   have hoff : findFrom PDF_KW (out.length + 1) out 0 = some 0 := by
     rw [hout]; simp [PDF_KW, findFrom, List.isPrefixOf]
   have hhead : pHeader out = some version := by
@@ -126,15 +116,15 @@ theorem load_front_chain (arr : List Block → List Block) (out version mark R :
 /-- **The front of `Reader::read`** on any file of the shape `%PDF-<version>\n%<mark>\n…` whose
 `startxref` is found and whose newest section has no `Prev`: the reader enters the object pass
 with that section's table and trailer. -/
-theorem load_front (arr : List Block → List Block) (out version mark R : Bytes)
+theorem load_front (arr : List Block → List Block) (arr2 : List ObjId → List ObjId) (out version mark R : Bytes)
     (hout : out = PDF_KW ++ (version ++ 10 :: 37 :: (mark ++ 10 :: R)))
     (hv1 : ∀ b ∈ version, notEol b = true) (hv2 : validUtf8 version = true)
     (hmark : (mark.all fun b => b ≥ 128) = true)
     (xs : Nat) (hxs : getXrefStart out = some xs) (hle : xs ≤ out.length)
     (x0 : XTable) (sz : Nat) (tr0 : Dict) (hxt : xrefAndTrailer (out.drop xs) = .ok (x0, sz, tr0))
     (hprev : tr0.get PREV = none) (hmax : x0.maxId + 1 < U32) (henc : tr0.has ENCRYPT = false) :
-    loadDocWith arr out = objectPass arr out version mark x0 tr0 xs := by
-  apply load_front_chain arr out version mark R hout hv1 hv2 hmark xs hxs hle x0 sz tr0 hxt x0 tr0 ?_ hmax henc
+    loadDocWith arr arr2 out = objectPass arr arr2 out version mark x0 tr0 xs := by
+  apply load_front_chain arr arr2 out version mark R hout hv1 hv2 hmark xs hxs hle x0 sz tr0 hxt x0 tr0 ?_ hmax henc
   simp [prevLoop, hprev, Dict_remove_absent tr0 PREV hprev]
 
 theorem XTable_mem_get (t : XTable) (k : Nat) (v : XEntry) (h : (k, v) ∈ t) : (t.get k).isSome = true := by
@@ -192,7 +182,7 @@ text without line breaks and valid UTF-8, trailer without `Prev`/`Encrypt`, trai
 reads back): the reader finds `%PDF-` at offset 0, reads header and binary mark back, finds
 `startxref`, decodes the table, leaves the `Prev` loop at once and runs its object pass on
 exactly the recorded table — every entry of which points at its object's `n g obj` header. -/
-theorem load_front_of_save_tableN (arr : List Block → List Block) (d : SDoc) (out : Bytes) (d' : SDoc) (tr' : Dict)
+theorem load_front_of_save_tableN (arr : List Block → List Block) (arr2 : List ObjId → List ObjId) (d : SDoc) (out : Bytes) (d' : SDoc) (tr' : Dict)
     (hk : d.xrefKind = .table) (h : saveFrom [] d = some (out, d')) (hlen : out.length < 4294967296)
     (hmax : d.maxId + 1 ≤ 4294967295) (hg : GensOk d)
     (hD : DictReadsBackN d'.trailer tr' (STARTXREF_KW ++ natDigits (bodyOf [] d).length ++ EOF_KW))
@@ -203,8 +193,8 @@ theorem load_front_of_save_tableN (arr : List Block → List Block) (d : SDoc) (
       (∀ n, table.get n = if 1 ≤ n ∧ n < d.maxId + 1 then normalOf (xmapOf [] d) n else none) ∧
       (∀ n off g, table.get n = some (.normal off g) → HeaderAt out off n g) ∧
       (table.map (·.1)).Nodup ∧
-      loadDocWith arr out
-        = objectPass arr out d.version d.binaryMark table tr' (bodyOf [] d).length := by
+      loadDocWith arr arr2 out
+        = objectPass arr arr2 out d.version d.binaryMark table tr' (bodyOf [] d).length := by
   obtain ⟨xs, table, hxs, hle, hxt, hget, hhdr, hnodup⟩ := load_xref_of_save_tableN [] d out d' tr' hk h hlen hmax hg hD hsz
   have hxs' : xs = (bodyOf [] d).length := by
     have := startxref_found [] d out d' h hlen
@@ -212,7 +202,7 @@ theorem load_front_of_save_tableN (arr : List Block → List Block) (d : SDoc) (
   subst hxs'
   obtain ⟨R, hR⟩ := saveFrom_header d out d' h
   refine ⟨table, hget, hhdr, hnodup, ?_⟩
-  apply load_front arr out d.version d.binaryMark R hR hv1 hv2 (saveFrom_mark [] d out d' h) _ hxs hle
+  apply load_front arr arr2 out d.version d.binaryMark R hR hv1 hv2 (saveFrom_mark [] d out d' h) _ hxs hle
     table (d.maxId + 1) tr' hxt
   · exact hprev
   · have : table.maxId ≤ d.maxId := by
@@ -226,7 +216,7 @@ theorem load_front_of_save_tableN (arr : List Block → List Block) (d : SDoc) (
     simp only [U32]; omega
   · exact henc
 
-theorem load_front_of_save_table (arr : List Block → List Block) (d : SDoc) (out : Bytes) (d' : SDoc)
+theorem load_front_of_save_table (arr : List Block → List Block) (arr2 : List ObjId → List ObjId) (d : SDoc) (out : Bytes) (d' : SDoc)
     (hk : d.xrefKind = .table) (h : saveFrom [] d = some (out, d')) (hlen : out.length < 4294967296)
     (hmax : d.maxId + 1 ≤ 4294967295) (hg : GensOk d)
     (hD : DictReadsBack d'.trailer (STARTXREF_KW ++ natDigits (bodyOf [] d).length ++ EOF_KW))
@@ -236,12 +226,12 @@ theorem load_front_of_save_table (arr : List Block → List Block) (d : SDoc) (o
       (∀ n, table.get n = if 1 ≤ n ∧ n < d.maxId + 1 then normalOf (xmapOf [] d) n else none) ∧
       (∀ n off g, table.get n = some (.normal off g) → HeaderAt out off n g) ∧
       (table.map (·.1)).Nodup ∧
-      loadDocWith arr out
-        = objectPass arr out d.version d.binaryMark table d'.trailer (bodyOf [] d).length := by
+      loadDocWith arr arr2 out
+        = objectPass arr arr2 out d.version d.binaryMark table d'.trailer (bodyOf [] d).length := by
   obtain ⟨_, htr⟩ := saveFrom_table_eq [] d out d' hk h
   have k1 : ¬ SIZE = PREV := by decide
   have k2 : ¬ SIZE = ENCRYPT := by decide
-  apply load_front_of_save_tableN arr d out d' d'.trailer hk h hlen hmax hg hD ?_ hv1 hv2
+  apply load_front_of_save_tableN arr arr2 d out d' d'.trailer hk h hlen hmax hg hD ?_ hv1 hv2
   · rw [htr, Dict_get_set]; simp only [k1, if_false]; exact hprev
   · rw [Dict_has_eq, htr, Dict_get_set]; simp only [k2, if_false]
     rw [← Dict_has_eq]; exact henc
